@@ -16,7 +16,7 @@ theorem Inv.aLockS {s : State} (hI : Inv s) {a : Actor} {f x : Nat} (hp : s.pc a
     rcases hI.kindF h with h1 | h1 <;> simp [hp, Pc.isWait] at h1
   obtain ⟨kindC, kindF, lockOk, frWait, freshOk, freshUniq, freshVer, freshVerT, freshNode, wFreeTaken, preOk, postOk, ownOk, rsmTaken,
     freeTaken, pubNode, waiting, parked, listOk, scanOk, prevOk, placed, oScanOk, oNoneOk, aUnlockOk, aNextOk, aResumeOk, aFreeOk,
-    noRead, cTakeOk, allocUsed, noBad⟩ := hI
+    noRead, cTakeOk, cRemoveOk, allocUsed, noBad⟩ := hI
   have hmem : ∀ g m, MemOk s g m →
       MemOk (({ s with lock := upd s.lock f (some a), hnext := upd s.hnext f none, glist := upd s.glist f [] }).setPc a
         (.aScan f (some x) .hd x [] (s.glist f) [] (s.glist f))) g m := by
@@ -127,6 +127,7 @@ theorem Inv.aLockS {s : State} (hI : Inv s) {a : Actor} {f x : Nat} (hp : s.pc a
   case aFreeOk => first | (inv_auto; done) | (trace "FAIL aFreeOk"; sorry)
   case noRead => first | (inv_auto; done) | (trace "FAIL noRead"; sorry)
   case cTakeOk => first | (inv_auto; done) | (trace "FAIL cTakeOk"; sorry)
+  case cRemoveOk => first | (inv_auto; done) | (trace "FAIL cRemoveOk"; sorry)
   case allocUsed => first | (inv_auto; done) | (trace "FAIL allocUsed"; sorry)
   case noBad => first | (inv_auto; done) | (trace "FAIL noBad"; sorry)
 
@@ -141,7 +142,7 @@ theorem Inv.aLockN {s : State} (hI : Inv s) {a : Actor} {f : Nat} (hp : s.pc a =
     rcases hI.kindF h with h1 | h1 <;> simp [hp, Pc.isWait] at h1
   obtain ⟨kindC, kindF, lockOk, frWait, freshOk, freshUniq, freshVer, freshVerT, freshNode, wFreeTaken, preOk, postOk, ownOk, rsmTaken,
     freeTaken, pubNode, waiting, parked, listOk, scanOk, prevOk, placed, oScanOk, oNoneOk, aUnlockOk, aNextOk, aResumeOk, aFreeOk,
-    noRead, cTakeOk, allocUsed, noBad⟩ := hI
+    noRead, cTakeOk, cRemoveOk, allocUsed, noBad⟩ := hI
   have hgl : s.glist f = [] := by
     have := (listOk f).1.head
     rw [hx] at this
@@ -267,6 +268,7 @@ theorem Inv.aLockN {s : State} (hI : Inv s) {a : Actor} {f : Nat} (hp : s.pc a =
   case aFreeOk => first | (inv_auto; done) | (trace "FAIL aFreeOk"; sorry)
   case noRead => first | (inv_auto; done) | (trace "FAIL noRead"; sorry)
   case cTakeOk => first | (inv_auto; done) | (trace "FAIL cTakeOk"; sorry)
+  case cRemoveOk => first | (inv_auto; done) | (trace "FAIL cRemoveOk"; sorry)
   case allocUsed => first | (inv_auto; done) | (trace "FAIL allocUsed"; sorry)
   case noBad => first | (inv_auto; done) | (trace "FAIL noBad"; sorry)
 
